@@ -105,7 +105,9 @@ def generate(rng, tier, rep):
                 elif r < 0.4:
                     T['subs'] = [['fail', rand_msg(rng)], 'ok']
                 tests.append(T)
-        cases.append({'layers': layers, 'tests': tests, 'options': ['--xml', 'xmlout'] + ([] if resumed else [rng.choice(['-j2', '-j3'])])})
+        # (at every verbosity: what a process says about its reports must not keep it from writing them)
+        cases.append({'layers': layers, 'tests': tests,
+                      'options': ['--xml', 'xmlout'] + ([] if resumed else [rng.choice(['-j2', '-j3'])]) + [[], ['-v'], ['-vv']][k % 3]})
         rep.count('subprocess_layers=%s' % ('resumed' if resumed else 'parallel'))
     for c in cases:
         rep.count('tests=%d' % len(c['tests']))
